@@ -430,7 +430,9 @@ class Evaluator:
         if isinstance(node, ast.IfExp):
             return Term.atom(f"ite({self.cond(node.test)},{self.ev(node.body).key()},{self.ev(node.orelse).key()})")
         if isinstance(node, ast.Lambda):
-            return Term.atom("lambda:" + self.child({}, this_names={a.arg for a in node.args.args}).ev(node.body).key())
+            ps_ = [a.arg for a in node.args.args]
+            env_ = {p_: Term.atom("ctx" if i_ == 1 else f"ctx{i_}") for i_, p_ in enumerate(ps_) if i_ >= 1}
+            return Term.atom("lambda:" + self.child(env_, this_names=set(ps_[:1])).ev(node.body).key())
         if isinstance(node, ast.Tuple):
             return Term.atom("tuple(" + ",".join(self.ev(e).key() for e in node.elts) + ")")
         if isinstance(node, ast.List):
